@@ -49,7 +49,7 @@ fn one(w: &World, c: &Value) -> Value {
         Some(l) => l,
         None => return json!({"ok": false, "code": "", "fail": "setup", "site": "handshake", "rot": "na"}),
     };
-    let (resp, slot) = create_session(w, &mut l, &path);
+    let (resp, slot) = create_session(w, &mut l, &path, TIMEOUT_MS);
     let mut slot = match slot {
         Some(s) => s,
         None => {
